@@ -40,7 +40,7 @@ ASSUMPTIONS = [
     "process pools are non-deterministic stress only",
 ]
 REQUIRED_MONITORS = ["H1_count", "H2_best_is_min", "H3_tree_of_query", "H4_costs_true", "H5_faults_skipped", "scripted_orders", "threadpool_runs",
-                     "post:none", "post:slicing", "post:reconf", "post:slicing_reconf", "post:anneal"]
+                     "post:none", "post:slicing", "post:reconf", "post:slicing_reconf", "post:anneal", "post:stacked"]
 SHARD_TIMEOUT = {"quick": 500, "thorough": 5400}
 
 FAULT = {"calls": 0, "fail_at": {}, "on": False}
@@ -73,10 +73,17 @@ def classify(v):
     return None
 
 
-POSTS = ("none", "slicing", "reconf", "slicing_reconf", "anneal", "anneal_sliced")
+POSTS = ("none", "slicing", "reconf", "slicing_reconf", "anneal", "anneal_sliced",
+         # stacked options: each wrapper must leave the figures of the FINAL tree in the trial
+         "slicing+reconf", "anneal+slicing", "slicing_reconf+reconf", "anneal+slicing+reconf")
 
 
 def post_opts(post, tree_size):
+    if "+" in post:
+        out = {}
+        for part in post.split("+"):
+            out.update(post_opts(part, tree_size))
+        return out
     tgt = max(1, tree_size // 4)
     if post == "slicing":
         return {"slicing_opts": {"target_size": tgt, "max_repeats": 2}}
@@ -223,7 +230,10 @@ def execute(rep, case):
     install()
     net = gen.Net.from_json(case["net"])
     ex = case["executor"]
-    rep.mon("post:" + {"anneal_sliced": "anneal"}.get(case["post"], case["post"]))
+    for part in case["post"].split("+"):
+        rep.mon("post:" + {"anneal_sliced": "anneal"}.get(part, part))
+    if "+" in case["post"]:
+        rep.mon("post:stacked")
     if ex == "scripted":
         n = case["max_repeats"]
         if case.get("perm") is not None:
